@@ -4276,6 +4276,11 @@ class Parameters:
 
         changed_params = self.param.values(onlychanged=script_repr_suppress_defaults)
         values = self.param.values()
+        # An explicit name is printed even when it equals the class default
+        # (the class name): the rebuilt object would get a generated one.
+        if (isinstance(values.get('name'), str)
+                and not _is_auto_name(self.__class__.__name__, values['name'])):
+            changed_params.setdefault('name', values['name'])
         spec = getfullargspec(type(self).__init__)
         if 'self' not in spec.args or spec.args[0] != 'self':
             raise KeyError(f"'{type(self).__name__}.__init__.__signature__' must contain 'self' as its first Parameter.")
